@@ -255,8 +255,17 @@ def harness(ns, params):
             s1.read(SymFile(file_lines(section, L, base)), engine="normal", mnemonic_case="preserve")
         except core.Abort:
             raise
-        except Exception:
-            raise core.Abort("not an accepted input")
+        except Exception as e:
+            # "lasio rejects this input" must be the real reader's verdict too, not an artefact of the engine
+            from symlas.values import concretize
+            import lasio as _real
+
+            Lc = concretize(L, cx.ensure_model())
+            try:
+                _real.read("\n".join(file_lines(section, Lc, base)) + "\n", engine="normal", mnemonic_case="preserve")
+            except Exception:
+                raise core.Abort("not an accepted input")
+            raise core.Inconclusive("the engine's read raised %r on %r, which the real reader accepts" % (e, Lc))
         sec = s1.sections[W.SECTIONS[section]]
         nbase = len((ALT[base] if base in ALT else BASE)[section]) - 1 + (1 if (section == "W" and base == "dupnull") else 0)
         items = list(list.__iter__(sec))
